@@ -859,6 +859,11 @@ func (fc *FnCtx) builtin(b *ssa.Builtin, c *ssa.CallCommon, pos token.Pos, resTy
 	case "print", "println":
 		return Val{Typ: resType}
 	case "close":
+		// channels of this library are shared with concurrent senders (request workers, callers of Log/Rpc):
+		// closing one makes a later send panic. A function that may close a channel must say so (opt mayclose).
+		if fc.con.Opts["mayclose"] == "" {
+			fc.oblige("chan:close", fc.srcText(pos), "false", nil, "a channel that other goroutines send on is never closed", pos)
+		}
 		return Val{Typ: resType}
 	case "min", "max":
 		a, b2 := fc.valOf(c.Args[0]), fc.valOf(c.Args[1])
